@@ -1219,6 +1219,16 @@ Proof.
 Qed.
 
 (* ================================================================== Part 5: the sticky step *)
+(* isRegisteredBackend: the pinned backend OBJECT (address and generation) is still in the set *)
+Lemma bref_alive_registered p addr g : alookup addr (ps_backends p) = Some g -> bref_alive p (BObj addr g) = true.
+Proof. intros A. unfold bref_alive. rewrite A. apply Nat.eqb_refl. Qed.
+Lemma bref_alive_unregistered p addr g : alookup addr (ps_backends p) <> Some g -> bref_alive p (BObj addr g) = false.
+Proof.
+  intros A. unfold bref_alive. destruct (alookup addr (ps_backends p)) as [g'|]; [|reflexivity].
+  apply Nat.eqb_neq. intros ->. apply A. reflexivity.
+Qed.
+Lemma bref_alive_backends p p' b : ps_backends p' = ps_backends p -> bref_alive p' b = bref_alive p b.
+Proof. intros E. unfold bref_alive. rewrite E. reflexivity. Qed.
 (* NOTIFY with Subscription-State exactly "terminated" *)
 Definition notify_terminated (meth : bytes) (m : message) : bool :=
   beq meth (s2b "NOTIFY") && match get_raw (s2b "Subscription-State") m with Ok s => beq s (s2b "terminated") | _ => false end.
@@ -1236,6 +1246,10 @@ Definition fbd_pure (e : env) (p : pstate) (m : message) : res (pstate * option 
             let pins1 := fst (pins_get (e_now e) d (ps_pins p)) in
             let ob := snd (pins_get (e_now e) d (ps_pins p)) in
             let p1 := with_pins p pins1 in
+            (* the pinned backend object has left the set: the binding is forgotten, the rotation decides *)
+            if (fx_stale_pin (e_fx e) && match ob with Some v => negb (bref_alive p1 (bref_of_val v)) | None => false end)%bool
+            then Ok (with_pins p1 (pins_remove d (ps_pins p1)), None)
+            else
             match get_raw (s2b "Subscription-State") m with
             | Panic => Panic
             | _ => Ok (if notify_terminated meth m then with_pins p1 (pins_remove d (ps_pins p1)) else p1,
@@ -1256,7 +1270,8 @@ Proof.
   assert (K02 : keeps names m m2) by (eapply keeps_trans; eassumption).
   rewrite (dialog_of_keeps names m m1 K1) by in_names.
   destruct (dialog_of m) as [d| |]; cbn [opt_res]; try (exists m2; split; [reflexivity|exact K02]).
-  destruct (pins_get (e_now e) d (ps_pins p)) as [pins1 ob]. cbn [fst snd].
+  destruct (pins_get (e_now e) d (ps_pins p)) as [pins1 ob]. cbn [fst snd]. cbv zeta.
+  destruct (_ && _)%bool; [exists m2; split; [reflexivity|exact K02]|].
   unfold mbind, mtry, s_get_raw, mret, notify_terminated.
   rewrite (k_substate names m m2 K02 ltac:(in_names)).
   destruct (get_raw (s2b "Subscription-State") m) as [s| |]; exists m2; (split; [reflexivity|exact K02]).
@@ -1406,14 +1421,16 @@ Qed.
 Lemma stb_sel_pinned e p m d addr g ex :
   fx_indialog_invite (e_fx e) = true -> is_request m = true -> dialog_of m = Ok d ->
   pin_at d (pin_val_backend addr g) ex (ps_pins p) -> e_now e < ex -> gen_ok g ->
+  alookup addr (ps_backends p) = Some g ->
   stb_sel e p m =
   (if notify_terminated (req_method m) m
    then with_pins (with_pins p (ps_pins p)) (pins_remove d (ps_pins p)) else with_pins p (ps_pins p),
    BObj addr g).
 Proof.
-  intros FX R D P L G. unfold stb_sel, fbd_pure. rewrite (method_of_request m R), FX, D. cbn [negb andb].
+  intros FX R D P L G A. unfold stb_sel, fbd_pure. rewrite (method_of_request m R), FX, D. cbn [negb andb].
   rewrite (pin_at_get_live d _ ex (e_now e) (ps_pins p) P L). cbn [fst snd option_map].
   rewrite (bref_of_val_backend addr g G).
+  rewrite (bref_alive_registered (with_pins p (ps_pins p)) addr g A). cbn [negb]. rewrite andb_false_r.
   pose proof (get_raw_not_panic (s2b "Subscription-State") m) as NP.
   destruct (get_raw (s2b "Subscription-State") m) eqn:E; try contradiction; reflexivity.
 Qed.
@@ -1438,7 +1455,7 @@ Theorem C04_sticky_step : forall e m x t0 d addr g ex dst,
 Proof.
   intros e m x t0 d addr g ex dst FX HR FT R D P L A G AD b x'.
   destruct (send_to_backend_spec e m x t0 HR FT) as (EP & EO & _). fold x' in EP, EO.
-  unfold stb_pure in EP, EO. rewrite (stb_sel_pinned e (x_p x) m d addr g ex FX R D P L G) in EP, EO.
+  unfold stb_pure in EP, EO. rewrite (stb_sel_pinned e (x_p x) m d addr g ex FX R D P L G A) in EP, EO.
   fold b in EP, EO.
   set (p1 := if notify_terminated (req_method m) m
              then with_pins (with_pins (x_p x) (ps_pins (x_p x))) (pins_remove d (ps_pins (x_p x)))
@@ -1510,19 +1527,28 @@ Proof.
   destruct (method_of m) as [meth| |]; try (split; [apply mem_refl|reflexivity]).
   destruct (_ && _)%bool; [split; [apply mem_refl|reflexivity]|].
   destruct (dialog_of m) as [d| |]; try (split; [apply mem_refl|reflexivity]).
+  cbv zeta. destruct (_ && _)%bool; [split; [repeat split|reflexivity]|].
   destruct (get_raw _ m); cbn [fst]; try (split; [apply mem_refl|reflexivity]);
     destruct (notify_terminated meth m); split; try reflexivity; repeat split.
 Qed.
+(* the pin of d survives the selection when the object it names is still registered (a pin whose
+   object has left the set is forgotten by the request of its own dialog) *)
 Lemma stb_sel_pin e p m d v ex : is_request m = true ->
   pin_at d v ex (ps_pins p) -> e_now e < ex ->
+  bref_alive p (bref_of_val v) = true ->
   (dialog_of m = Ok d -> notify_terminated (req_method m) m = false) ->
   pin_at d v ex (ps_pins (fst (stb_sel e p m))).
 Proof.
-  intros R P L NT. unfold stb_sel, fbd_pure. rewrite (method_of_request m R).
+  intros R P L AL NT. unfold stb_sel, fbd_pure. rewrite (method_of_request m R).
   destruct (_ && _)%bool; [exact P|].
   destruct (dialog_of m) as [d'| |]; try exact P.
   pose proof (get_raw_not_panic (s2b "Subscription-State") m) as NP.
   assert (P1 : pin_at d v ex (fst (pins_get (e_now e) d' (ps_pins p)))) by (apply pin_at_get; assumption).
+  cbv zeta. destruct (fx_stale_pin (e_fx e) && _)%bool eqn:ST.
+  { cbn [fst ps_pins with_pins]. apply pin_at_remove_other; [|exact P1].
+    intros ->. rewrite (pin_at_get_live d v ex (e_now e) (ps_pins p) P L) in ST. cbn [fst snd] in ST.
+    rewrite (bref_alive_backends p (with_pins p (ps_pins p)) (bref_of_val v) eq_refl), AL in ST.
+    rewrite andb_false_r in ST. discriminate ST. }
   assert (G : pin_at d v ex (ps_pins
             (if notify_terminated (req_method m) m
              then with_pins (with_pins p (fst (pins_get (e_now e) d' (ps_pins p))))
@@ -1532,16 +1558,17 @@ Proof.
     apply pin_at_remove_other; [|exact P1]. intros E. subst d'. discriminate (NT eq_refl). }
   destruct (get_raw (s2b "Subscription-State") m); try contradiction; exact G.
 Qed.
-(* sendToBackend for ANY request keeps the pin of d, provided it is not the terminating NOTIFY of
-   d and its transaction key is not d *)
+(* sendToBackend for ANY request keeps the pin of d, provided the pinned object is still registered, it is not
+   the terminating NOTIFY of d and its transaction key is not d *)
 Lemma stb_pin_preserved e t0 p m d v ex : is_request m = true ->
   pin_at d v ex (ps_pins p) -> e_now e < ex ->
+  bref_alive p (bref_of_val v) = true ->
   (forall c, snd (s_get_cseq m) = Ok c -> trans_key e c <> d) ->
   (dialog_of m = Ok d -> notify_terminated (req_method m) m = false) ->
   pin_at d v ex (ps_pins (fst (stb_pure e t0 p m))) /\ mem_eq p (fst (stb_pure e t0 p m)).
 Proof.
-  intros R P L NK NT. unfold stb_pure.
-  pose proof (stb_sel_pin e p m d v ex R P L NT) as P1. pose proof (stb_sel_mem e p m) as [M1 _].
+  intros R P L AL NK NT. unfold stb_pure.
+  pose proof (stb_sel_pin e p m d v ex R P L AL NT) as P1. pose proof (stb_sel_mem e p m) as [M1 _].
   destruct (stb_sel e p m) as [p1 b]. cbn [fst] in P1, M1.
   assert (B : forall bytes_, ps_pins (fst (fst (backend_send b bytes_ p1))) = ps_pins p1 /\
                              mem_eq p1 (fst (fst (backend_send b bytes_ p1)))).
@@ -1741,11 +1768,12 @@ Proof. intros K H. unfold notify_terminated. rewrite (k_substate N m m' K H). re
 
 Lemma send_to_backend_pin e m x d v ex : is_request m = true ->
   pin_at d v ex (ps_pins (x_p x)) -> e_now e < ex ->
+  bref_alive (x_p x) (bref_of_val v) = true ->
   (forall c, snd (s_get_cseq m) = Ok c -> trans_key e c <> d) ->
   (dialog_of m = Ok d -> notify_terminated (req_method m) m = false) ->
   pin_at d v ex (ps_pins (x_p (fst (send_to_backend e m x)))) /\ mem_eq (x_p x) (x_p (fst (send_to_backend e m x))).
 Proof.
-  intros R P L NK NT.
+  intros R P L AL NK NT.
   destruct (ps_has_rr (x_p x)) eqn:HR.
   2:{ unfold send_to_backend. rewrite HR. cbn. split; [exact P|apply mem_refl]. }
   destruct (first_transport (e_lc e)) as [t0|] eqn:FT.
@@ -1758,14 +1786,17 @@ Qed.
 Lemma request_pin_preserved e peer port from rs tcp m x x' d v ex : is_request m = true ->
   process_message e peer port from rs tcp m x = Ok x' ->
   pin_at d v ex (ps_pins (x_p x)) -> e_now e < ex ->
+  bref_alive (x_p x) (bref_of_val v) = true ->
   (forall c, snd (s_get_cseq m) = Ok c -> trans_key e c <> d) ->
   (dialog_of m = Ok d -> notify_terminated (req_method m) m = false) ->
   pin_at d v ex (ps_pins (x_p x')) /\ mem_eq (x_p x) (x_p x').
 Proof.
-  intros R E P L NK NT.
+  intros R E P L AL NK NT.
   destruct (process_message_request e peer port from rs tcp m x x' R E) as (m4 & x1 & K4 & _ & LB & _ & ->).
   assert (R4 : is_request m4 = true) by (rewrite (k_is_request NQ m m4 K4); exact R).
   assert (P1 : pin_at d v ex (ps_pins (x_p x1))) by (destruct LB as (_&_&_&_&->); exact P).
+  assert (AL1 : bref_alive (x_p x1) (bref_of_val v) = true)
+    by (rewrite (bref_alive_backends (x_p x) (x_p x1) _ (proj1 LB)); exact AL).
   pose proof (handle_message_request e from m4 x1 R4) as H. cbv zeta in H.
   assert (LBP : forall y, lb_eq (x_p x1) (x_p y) -> pin_at d v ex (ps_pins (x_p y)) /\ mem_eq (x_p x) (x_p y)).
   { intros y LY. split; [destruct LY as (_&_&_&_&->); exact P1|].
@@ -1779,6 +1810,7 @@ Proof.
     - rewrite (k_is_request NQ m m' K). exact R.
     - exact P1.
     - exact L.
+    - exact AL1.
     - intros c Hc. apply NK. rewrite <- (k_cseq NQ m m' K) by in_names. exact Hc.
     - intros Hd. rewrite (req_method_keeps NQ m m' K), (notify_terminated_keeps NQ _ m m' K) by in_names.
       apply NT. rewrite <- (dialog_of_keeps NQ m m' K) by in_names. exact Hd.
@@ -1887,9 +1919,12 @@ Theorem C04_preserved_message : forall e peer port from rs tcp m x x' d v ex,
   process_message e peer port from rs tcp m x = Ok x' ->
   msg_ok d (e_branch e) m ->
   pin_at d v ex (ps_pins (x_p x)) -> e_now e < ex ->
+  (* the pinned backend object is still registered (a pin whose object has left the set is forgotten
+     by the next request of its dialog, C04_stale_pin_balanced) *)
+  bref_alive (x_p x) (bref_of_val v) = true ->
   pin_at d v ex (ps_pins (x_p x')) /\ mem_eq (x_p x) (x_p x').
 Proof.
-  intros e peer port from rs tcp m x x' d v ex E OK P L. unfold msg_ok in OK.
+  intros e peer port from rs tcp m x x' d v ex E OK P L AL. unfold msg_ok in OK.
   destruct (is_request m) eqn:R.
   - destruct OK as [NK NT]. eapply request_pin_preserved; eassumption.
   - destruct OK as [NK NB].
@@ -1920,6 +1955,7 @@ Proof.
   { unfold stb_sel, fbd_pure. rewrite (method_of_request m R).
     destruct (_ && _)%bool; [reflexivity|].
     destruct (dialog_of m) as [d| |] eqn:ED; try reflexivity. rewrite (NP d eq_refl).
+    cbv beta iota zeta. rewrite andb_false_r.
     destruct (get_raw _ m); reflexivity. }
   destruct (stb_sel e (x_p x) m) as [p1 sel]. cbn [fst snd] in RR, S. subst sel.
   rewrite backend_send_rr in EP, EO. rewrite RR in EP, EO.
@@ -1927,6 +1963,75 @@ Proof.
   - destruct (fits_datagram b); cbn [fst snd] in EP, EO; (split; [exact EO|]); rewrite EP;
       try destruct (snd (s_get_cseq m)); reflexivity.
   - split; [exact EO|]. rewrite EP. reflexivity.
+Qed.
+
+(* ---- a live pin whose backend OBJECT has left the set (removed by the resolver, socket closed): the binding is
+   forgotten and the request is balanced like one of an unknown dialog (Proxy.findBackendByDialog + isRegisteredBackend),
+   instead of being written on the closed backend and lost ---- *)
+Lemma pins_add_absent d now k bv ee p : k <> d -> alookup d (p_tab p) = None ->
+  alookup d (p_tab (pins_add now k bv ee p)) = None.
+Proof.
+  intros NE H. unfold pins_add.
+  assert (H0 : alookup d (aset k {| pin_backend := bv; pin_expire := now + pins_lifetime p ee |} (p_tab p)) = None)
+    by (rewrite alookup_aset_other by (intros E; apply NE; symmetry; exact E); exact H).
+  destruct (_ <? _); cbn [p_tab]; [apply C15.alookup_clean_none|]; exact H0.
+Qed.
+(* the selection made for a request of a dialog pinned to an object that is not registered any more *)
+Lemma stb_sel_stale e p m d addr g ex :
+  fx_stale_pin (e_fx e) = true -> is_request m = true -> dialog_of m = Ok d ->
+  pin_at d (pin_val_backend addr g) ex (ps_pins p) -> e_now e < ex -> gen_ok g ->
+  alookup addr (ps_backends p) <> Some g ->
+  snd (stb_sel e p m) = BRR /\
+  (fx_indialog_invite (e_fx e) = true ->
+   fst (stb_sel e p m) = with_pins (with_pins p (ps_pins p)) (pins_remove d (ps_pins p))).
+Proof.
+  intros FS R D P L G A. unfold stb_sel, fbd_pure. rewrite (method_of_request m R), D. cbv beta iota.
+  rewrite (pin_at_get_live d _ ex (e_now e) (ps_pins p) P L). cbn [fst snd].
+  rewrite (bref_of_val_backend addr g G), FS.
+  rewrite (bref_alive_unregistered (with_pins p (ps_pins p)) addr g A). cbn [negb andb].
+  destruct (fx_indialog_invite (e_fx e)); cbn [negb andb].
+  - split; [reflexivity|intros _; reflexivity].
+  - destruct (_ || _)%bool; split; try reflexivity; intros H; discriminate H.
+Qed.
+
+Theorem C04_stale_pin_balanced : forall e m x t0 d addr g ex,
+  fx_stale_pin (e_fx e) = true ->
+  ps_has_rr (x_p x) = true -> first_transport (e_lc e) = Some t0 ->
+  is_request m = true -> dialog_of m = Ok d ->
+  (* the dialog is bound, the binding has not expired ... *)
+  pin_at d (pin_val_backend addr g) ex (ps_pins (x_p x)) -> e_now e < ex ->
+  (* ... but the backend object it names is not registered any more *)
+  alookup addr (ps_backends (x_p x)) <> Some g -> gen_ok g ->
+  let b := fwd_bytes e t0 (x_p x) m in
+  let x' := fst (send_to_backend e m x) in
+  (* exactly what an unpinned request gets (C04_unpinned_step): the rotation's next backend *)
+  x_outs x' = x_outs x ++
+    match snd (rr_dispatch (ps_rr (x_p x))) with
+    | Some a => if fits_datagram b then to_addr_outs a b else []
+    | None => []
+    end /\
+  ps_rr (x_p x') = fst (rr_dispatch (ps_rr (x_p x))) /\
+  (* and the stale binding is gone *)
+  (fx_indialog_invite (e_fx e) = true ->
+   (forall c, snd (s_get_cseq m) = Ok c -> trans_key e c <> d) ->
+   alookup d (p_tab (ps_pins (x_p x'))) = None).
+Proof.
+  intros e m x t0 d addr g ex FS HR FT R D P L A G b x'.
+  destruct (send_to_backend_spec e m x t0 HR FT) as (EP & EO & _). fold x' in EP, EO.
+  unfold stb_pure in EP, EO. fold b in EP, EO.
+  pose proof (stb_sel_mem e (x_p x) m) as [_ RR].
+  destruct (stb_sel_stale e (x_p x) m d addr g ex FS R D P L G A) as [S F1].
+  destruct (stb_sel e (x_p x) m) as [p1 sel]. cbn [fst snd] in RR, S, F1. subst sel.
+  assert (PN : fx_indialog_invite (e_fx e) = true -> alookup d (p_tab (ps_pins p1)) = None).
+  { intros FX. rewrite (F1 FX). cbn [ps_pins with_pins pins_remove p_tab]. apply alookup_adel_same. }
+  rewrite backend_send_rr in EP, EO. rewrite RR in EP, EO.
+  destruct (snd (rr_dispatch (ps_rr (x_p x)))) as [a|]; cbn [fst snd] in EP, EO.
+  - destruct (fits_datagram b); cbn [fst snd] in EP, EO; (split; [exact EO|]); rewrite EP.
+    + split; [destruct (snd (s_get_cseq m)); reflexivity|]. intros FX NK.
+      destruct (snd (s_get_cseq m)) as [c| |] eqn:EC; try exact (PN FX).
+      cbn [ps_pins with_pins]. apply pins_add_absent; [apply (NK c eq_refl)|exact (PN FX)].
+    + split; [reflexivity|]. intros FX _. exact (PN FX).
+  - split; [exact EO|]. rewrite EP. split; [reflexivity|]. intros FX _. exact (PN FX).
 Qed.
 
 (* ================================================================== Part 7: events and histories *)
@@ -1950,11 +2055,13 @@ Section Pinned.
   Definition pinned (st : state) : Prop := exists p, nth_p (st_proxies st) li = Some p /\ pinned_p p.
 
   Lemma pinned_p_message e peer port from rs tcp m x x' :
-    process_message e peer port from rs tcp m x = Ok x' -> msg_ok d (e_branch e) m -> e_now e < ex ->
+    process_message e peer port from rs tcp m x = Ok x' -> msg_ok d (e_branch e) m -> e_now e < ex -> gen_ok g ->
     pinned_p (x_p x) -> pinned_p (x_p x').
   Proof.
-    intros E OK L (P & A & H).
-    destruct (C04_preserved_message e peer port from rs tcp m x x' d v ex E OK P L) as (P' & B & HR & _).
+    intros E OK L G (P & A & H).
+    assert (AL : bref_alive (x_p x) (bref_of_val v) = true)
+      by (unfold v; rewrite (bref_of_val_backend addr g G); apply bref_alive_registered; exact A).
+    destruct (C04_preserved_message e peer port from rs tcp m x x' d v ex E OK P L AL) as (P' & B & HR & _).
     split; [exact P'|]. split; [rewrite B; exact A|rewrite HR; exact H].
   Qed.
 
@@ -1967,11 +2074,11 @@ Section Pinned.
              | _ => match parse_message s with Ok (m, rest) => m :: chunk_msgs f rest | _ => [] end
              end
     end.
-  Lemma pinned_p_tcp e cn : e_now e < ex -> forall fuel s x x',
+  Lemma pinned_p_tcp e cn : e_now e < ex -> gen_ok g -> forall fuel s x x',
     tcp_messages fuel e cn s x = Ok x' -> Forall (msg_ok d (e_branch e)) (chunk_msgs fuel s) ->
     pinned_p (x_p x) -> pinned_p (x_p x').
   Proof.
-    intros L. induction fuel as [|f IH]; intros s x x' E F Q; cbn [tcp_messages chunk_msgs] in E, F.
+    intros L G. induction fuel as [|f IH]; intros s x x' E F Q; cbn [tcp_messages chunk_msgs] in E, F.
     - injection E as <-. exact Q.
     - destruct (trim_left s); [injection E as <-; exact Q|].
       destruct (parse_message s) as [[m rest]| |]; try (injection E as <-; exact Q).
@@ -2009,15 +2116,15 @@ Section Pinned.
   (* C04_preserved: every event that is not a terminator for d keeps the binding *)
   Theorem C04_preserved : forall fx c now branch st ev st' outs,
     proxy_step fx c now branch st ev = Ok (st', outs) ->
-    ev_ok branch ev -> now < ex -> pinned st -> pinned st'.
+    ev_ok branch ev -> now < ex -> gen_ok g -> pinned st -> pinned st'.
   Proof.
-    intros fx c now branch st ev st' outs E OK L Q. destruct ev as [li' src sport data|li' src sport|cid data|cid|li' a|li' a];
+    intros fx c now branch st ev st' outs E OK L GK Q. destruct ev as [li' src sport data|li' src sport|cid data|cid|li' a|li' a];
       cbn [proxy_step ev_ok] in E, OK.
     - (* UDP datagram *)
       destruct (nth_opt (c_listens c) li') as [lc|]; [|injection E as <- _; exact Q].
       destruct (parse_message data) as [[m rest]| |] eqn:EP; try (injection E as <- _; exact Q).
       eapply run_ctx_pinned; [exact E| |exact Q]. intros -> p x' EF Qp.
-      eapply pinned_p_message; [exact EF|exact (OK eq_refl m rest eq_refl)|exact L|exact Qp].
+      eapply pinned_p_message; [exact EF|exact (OK eq_refl m rest eq_refl)|exact L|exact GK|exact Qp].
     - (* accept *)
       destruct (nth_opt (c_listens c) li') as [lc|]; [|injection E as <- _; exact Q].
       destruct (nth_p (st_proxies st) li') as [p0|] eqn:N0; [|injection E as <- _; exact Q].
@@ -2035,7 +2142,7 @@ Section Pinned.
       destruct (cn_open cn); [|injection E as <- _; exact Q].
       destruct (nth_opt (c_listens c) (cn_li cn)) as [lc|]; [|injection E as <- _; exact Q].
       eapply run_ctx_pinned; [exact E| |exact Q]. intros _ p x' EF Qp.
-      eapply pinned_p_tcp; [|exact EF|exact OK|exact Qp]. exact L.
+      eapply pinned_p_tcp; [| |exact EF|exact OK|exact Qp]; [exact L|exact GK].
     - (* close *)
       injection E as <- _. exact Q.
     - (* backend added *)
@@ -2084,14 +2191,15 @@ Qed.
 Theorem C04_preserved_history : forall li d addr g ex fx c h st st' outss,
   run fx c st h = Ok (st', outss) ->
   Forall (fun '(now, br, ev) => now < ex /\ ev_ok li d addr br ev) h ->
+  gen_ok g ->
   pinned li d addr g ex st -> pinned li d addr g ex st'.
 Proof.
-  intros li d addr g ex fx c. induction h as [|[[now br] ev] r IH]; intros st st' outss E F Q; cbn [run] in E.
+  intros li d addr g ex fx c. induction h as [|[[now br] ev] r IH]; intros st st' outss E F G Q; cbn [run] in E.
   - injection E as <- _. exact Q.
   - inversion F as [|x0 l0 HH F']; subst. cbv beta iota in HH. destruct HH as [L OK].
     destruct (proxy_step fx c now br st ev) as [[st1 o]| |] eqn:E1; cbn [rbind] in E; try discriminate.
     destruct (run fx c st1 r) as [[st2 os]| |] eqn:E2; cbn [rbind] in E; try discriminate.
-    injection E as <- _. eapply IH; [exact E2|exact F'|].
+    injection E as <- _. eapply IH; [exact E2|exact F'|exact G|].
     eapply C04_preserved; eassumption.
 Qed.
 
@@ -2461,7 +2569,7 @@ Proof. vm_compute. split; reflexivity. Qed.
 (* before the repair of findBackendByDialog (fx_indialog_invite = false): the re-INVITE inside the
    pinned dialog goes to the rotation's next backend (.11) although the pin (.12) is live *)
 Definition legacy_fixes : fixes :=
-  {| fx_wiring := true; fx_udp_via_listener := true; fx_indialog_invite := false; fx_bracket_host := true; fx_resolved_key := true |}.
+  {| fx_wiring := true; fx_udp_via_listener := true; fx_indialog_invite := false; fx_bracket_host := true; fx_resolved_key := true; fx_stale_pin := true |}.
 Theorem C04_legacy_refuted :
   let h := firstn 4 ex_hist in
   let st3 := match run legacy_fixes ex_cfg ex_st0 (firstn 3 ex_hist) with Ok (s, _) => s | _ => ex_st0 end in
@@ -2474,6 +2582,63 @@ Theorem C04_legacy_refuted :
   last (dests (run legacy_fixes ex_cfg ex_st0 h)) [] = [DUdp (s2b "10.0.0.11") 5070] /\
   last (dests (run all_fixed ex_cfg ex_st0 h)) [] = [DUdp (s2b "10.0.0.12") 5070].
 Proof. vm_compute. repeat split; reflexivity. Qed.
+
+(* ---- a dialog answered by a DYNAMIC backend which the resolver then removes.  Before the repair of
+   findBackendByDialog (fx_stale_pin = false) the BYE of that dialog is written on the closed backend object and
+   lost although another backend is registered; the current tree forgets the binding and balances it ---- *)
+Definition dyn_lc : listen_cfg :=
+  {| lc_addr := s2b "10.0.0.1"; lc_udp := 5060; lc_tcp := 5060;
+     lc_backends := [s2b "10.0.0.11:5070"];
+     lc_dynamic := true; lc_no_received := false; lc_def_route := false; lc_must_rr := false |}.
+Definition dyn_cfg : cfg :=
+  {| c_name := s2b "sip.example.com"; c_keep_next_hop := false; c_dialog_timeout := 1800;
+     c_routes := []; c_hosts := []; c_listens := [dyn_lc] |}.
+Definition dyn_hist : hist :=
+  [ (sec 1, [], EvBackendAdd 0 (s2b "10.0.0.12:5070"));
+    (sec 2, s2b "z9hG4bKpx0", EvUdp 0 (s2b "10.0.0.99") 5060 ex_invite);
+    (sec 3, s2b "z9hG4bKpx1", EvUdp 0 (s2b "10.0.0.12") 5070 ex_200);
+    (sec 4, [], EvBackendRemove 0 (s2b "10.0.0.12:5070"));
+    (sec 5, s2b "z9hG4bKpx2", EvUdp 0 (s2b "10.0.0.99") 5060 ex_bye) ].
+Definition dyn_st0 : state := init_state dyn_cfg 0 [].
+Definition stale_legacy_fixes : fixes :=
+  {| fx_wiring := true; fx_udp_via_listener := true; fx_indialog_invite := true; fx_bracket_host := true; fx_resolved_key := true; fx_stale_pin := false |}.
+Definition dyn_st4 (fx : fixes) : state := match run fx dyn_cfg dyn_st0 (firstn 4 dyn_hist) with Ok (s, _) => s | _ => dyn_st0 end.
+Definition dyn_p4 (fx : fixes) : pstate :=
+  match nth_p (st_proxies (dyn_st4 fx)) 0 with Some p => p | None => init_pstate dyn_cfg 0 dyn_lc end.
+Theorem C04_stale_pin_legacy_refuted :
+  (* when the BYE arrives (t = 5 s) the binding to the object 10.0.0.12:5070#1 is there and live, that object is not
+     registered any more, 10.0.0.11:5070 is *)
+  match nth_p (st_proxies (dyn_st4 stale_legacy_fixes)) 0 with
+  | Some p => snd (pins_get (sec 5) ex_d (ps_pins p)) = Some (pin_val_backend (s2b "10.0.0.12:5070") 1) /\
+              alookup (s2b "10.0.0.12:5070") (ps_backends p) = None /\
+              alookup (s2b "10.0.0.11:5070") (ps_backends p) = Some 0%nat
+  | None => False
+  end /\
+  dialog_of (msg_of ex_bye) = Ok ex_d /\
+  (* INVITE -> .12 (the dynamic backend), 200 -> caller, BYE -> nowhere *)
+  dests (run stale_legacy_fixes dyn_cfg dyn_st0 dyn_hist) =
+    [ []; [DUdp (s2b "10.0.0.12") 5070]; [DUdp (s2b "10.0.0.99") 5060]; []; [] ] /\
+  (* the current tree: BYE -> .11, the registered backend *)
+  dests (run all_fixed dyn_cfg dyn_st0 dyn_hist) =
+    [ []; [DUdp (s2b "10.0.0.12") 5070]; [DUdp (s2b "10.0.0.99") 5060]; []; [DUdp (s2b "10.0.0.11") 5070] ].
+Proof. vm_compute. repeat split; reflexivity. Qed.
+
+(* the hypotheses of C04_stale_pin_balanced hold on that history (the state the BYE finds) *)
+Example C04_stale_pin_balanced_ex :
+  let e := mk_env all_fixed dyn_cfg (item_rs_of true) 0 dyn_lc (sec 5) (s2b "z9hG4bKpx2") in
+  let st := dyn_st4 all_fixed in
+  let x := {| x_learned := st_learned st; x_p := dyn_p4 all_fixed; x_conns := st_conns st; x_world := st_world st; x_outs := [] |} in
+  let x' := fst (send_to_backend e (msg_of ex_bye) x) in
+  ps_rr (x_p x') = fst (rr_dispatch (ps_rr (dyn_p4 all_fixed))) /\ alookup ex_d (p_tab (ps_pins (x_p x'))) = None.
+Proof.
+  intros e st x x'.
+  unshelve epose proof (C04_stale_pin_balanced e (msg_of ex_bye) x (udp_from dyn_lc) ex_d (s2b "10.0.0.12:5070") 1%nat
+                          (sec 1803) _ _ _ _ _ _ _ _ _) as H.
+  1-7: vm_compute; reflexivity.
+  1-2: vm_compute; discriminate.
+  destruct H as (_ & H2 & H3). split; [exact H2|]. apply H3; [reflexivity|].
+  intros c Hc E. vm_compute in Hc. injection Hc as <-. vm_compute in E. discriminate E.
+Qed.
 
 (* ------------------------------------------------------------------ axiom audit *)
 Print Assumptions bref_of_val_backend.
@@ -2493,3 +2658,6 @@ Print Assumptions C04_unpinned_balanced.
 Print Assumptions key_neq_dialog.
 Print Assumptions C04_legacy_refuted.
 Print Assumptions C04_sticky_ex.
+Print Assumptions C04_stale_pin_balanced.
+Print Assumptions C04_stale_pin_legacy_refuted.
+Print Assumptions C04_stale_pin_balanced_ex.
